@@ -15,6 +15,9 @@ struct CrateM
     std::string name;
     int64_t parent;  // 0 = root
     bool live = true;
+    // a second handle to the same crate, obtained by a separate crate_by_id lookup when the crate is adopted and kept for the whole
+    // history: one operation in three goes through the second handles, every check reads through the first ones
+    std::optional<dj::crate> second;
 };
 struct TrackM
 {
@@ -375,7 +378,7 @@ inline void adopt_new_crate(World& w, Ctx& ctx, dj::crate cr, const std::string&
         ctx.label("1.x:crate-id-reissued");
     }
     w.issued_crate_ids.insert(id);
-    w.crates.push_back(CrateM{cr, id, name, parent, true});
+    w.crates.push_back(CrateM{cr, id, name, parent, true, w.db.crate_by_id(id)});
     auto& lst = w.order[parent];
     if (after != 0)
     {
@@ -524,9 +527,44 @@ inline void decoy_step(World& w, S& s, Ctx& ctx)
     check_decoy(w, w.hist);
 }
 
+// swaps first and second handles of every live crate for the duration of one operation
+struct SecondHandles
+{
+    World& w;
+    bool on;
+    SecondHandles(World& w_, bool on_) : w(w_), on(on_) { swap(); }
+    ~SecondHandles() { swap(); }
+    void swap()
+    {
+        if (on)
+            for (auto& c : w.crates)
+                if (c.second)
+                    std::swap(c.handle, *c.second);
+    }
+};
+inline void apply_crate_op_impl(World& w, S& s, Ctx& ctx, int mask);
 inline void apply_crate_op(World& w, S& s, Ctx& ctx, int mask)
 {
     decoy_step(w, s, ctx);
+    bool via_second = s.below(3) == 0;
+    size_t ncr = w.crates.size();
+    {
+        SecondHandles sh(w, via_second);
+        apply_crate_op_impl(w, s, ctx, mask);
+        // crates adopted during this operation got their own pair already; they must not be swapped back
+        if (via_second)
+            for (size_t i = ncr; i < w.crates.size(); ++i)
+                if (w.crates[i].second)
+                    std::swap(w.crates[i].handle, *w.crates[i].second);
+    }
+    if (via_second)
+    {
+        w.hist += " (via second handles)";
+        ctx.label("ops-via-second-handles");
+    }
+}
+inline void apply_crate_op_impl(World& w, S& s, Ctx& ctx, int mask)
+{
     auto lc = w.live_crates();
     auto lt = w.live_tracks();
     std::vector<int> menu;
